@@ -98,6 +98,25 @@ fn exec_here(case: &EnvCase) -> Observed {
         }
     }
     let mut bind = BindContext::new();
+    for p in case.pre.iter() {
+        match p.kind {
+            PreKind::StaleDirect(_) => {
+                for k in case.bindings.keys() {
+                    bind.bind_param(k, CelValue::from_string("stale-binding".to_string()));
+                }
+            }
+            PreKind::StaleJson(_) => {
+                let mut obj = serde_json::Map::new();
+                for k in case.bindings.keys() {
+                    obj.insert(k.clone(), serde_json::Value::String("stale-binding".into()));
+                }
+                let jv: rscel::serde_json::Value =
+                    rscel::serde_json::from_str(&serde_json::Value::Object(obj).to_string()).expect("json");
+                let _ = bind.bind_params_from_json_obj(jv);
+            }
+            _ => {}
+        }
+    }
     if case.via_json {
         let mut obj = serde_json::Map::new();
         for (k, v) in case.bindings.iter() {
@@ -214,7 +233,7 @@ fn run_pre(p: &PreOp, ctx: &mut CelContext, bind: Option<&BindContext>) {
                 let _ = c.exec("zz_pre", b);
             }
         }
-        PreKind::SiblingCtx(_) | PreKind::SiblingBind(_) => {}
+        PreKind::SiblingCtx(_) | PreKind::SiblingBind(_) | PreKind::StaleDirect(_) | PreKind::StaleJson(_) => {}
     }));
 }
 
